@@ -54,6 +54,15 @@ impl Rec {
         });
         r
     }
+    /// a recorder without watchdog thread (for scratch captures)
+    pub fn plain(path: &str) -> Rec {
+        Rec(Arc::new(Mutex::new(RecInner {
+            lines: vec![],
+            path: path.to_string(),
+            pending: None,
+            counters: serde_json::Map::new(),
+        })))
+    }
     pub fn emit(&self, mut v: Value) {
         strip_nulls(&mut v);
         let mut g = self.0.lock().unwrap();
